@@ -12,7 +12,7 @@ CHECKS = {
              "error are judged by TLC against the distribution semantics defined in spec/Semantics.tla (exact "
              "possible-world enumeration with well-founded models). A VIOLATION is a Layer-A fact about recorded "
              "output: wrong probability, missing instance, answered inconsistent evidence, crash, wrong error.",
-        design_ref="DESIGN.md §5 C01",
+        design_ref="DESIGN.md §4 C01",
         note=SEM_NOTE,
         technique="TLA+ spec (Semantics.tla) evaluated by TLC as reference enumerator on recorded implementation runs",
     ),
@@ -27,28 +27,28 @@ CHECKS.update({
                 "spec/Semantics.tla into must-answer (no cycle through negation in the full ground dependency graph), "
                 "must-reject (a query/evidence atom undefined in the well-founded model of every positive-weight world) "
                 "and either; the real system's accept/reject decision and, for must-answer programs, its numbers are "
-                "judged against that class.", "DESIGN.md §5 C02"),
+                "judged against that class.", "DESIGN.md §4 C02"),
     "C03": _sem("Every batch of sibling 'e' messages pushed by the default engine is permuted (seeded) through the "
                 "documented init_message_stack extension point; each permuted run is judged by Semantics.tla and "
-                "compared with the unpermuted run (same answers, instances, error class).", "DESIGN.md §5 C03",
+                "compared with the unpermuted run (same answers, instances, error class).", "DESIGN.md §4 C03",
                 technique="schedule permutation of the real engine's message stack + TLA+ Semantics oracle (TLC)"),
     "C04": _sem("Unbuffered depth-first, rc_first and the documented random-order engine are run on every generated "
-                "program, judged by Semantics.tla and compared with the default engine.", "DESIGN.md §5 C04",
+                "program, judged by Semantics.tla and compared with the default engine.", "DESIGN.md §4 C04",
                 technique="engine-mode matrix on the real engine + TLA+ Semantics oracle (TLC)"),
     "C05": _sem("Every available exact evaluatable (here: d-DNNF via dsharp; SDD family needs PySDD which is absent) x "
                 "{probability, log-probability, user-defined, NSP variant, symbolic} semiring is judged against the "
-                "exact rational computed by TLC, and cells are compared with the default.", "DESIGN.md §5 C05",
+                "exact rational computed by TLC, and cells are compared with the default.", "DESIGN.md §4 C05",
                 note=SEM_NOTE + " SDD/BDD back ends cannot run here (PySDD not installed): not decided."),
     "C06": _sem("Option vectors over propagate_evidence, propagate_weights, label_all, avoid_name_clash, keep_order, "
                 "keep_all, keep_duplicates, hide_builtins, log/normal space and the evidence spellings; each run is "
-                "judged by Semantics.tla and compared with the default run.", "DESIGN.md §5 C06"),
+                "judged by Semantics.tla and compared with the default run.", "DESIGN.md §4 C06"),
     "C07": _sem("Seeded permutations of statements, clauses and body literals (negated literals kept after their "
                 "binders); Layer A is order-free, so one TLC judgement serves all permutations; each permuted text is "
-                "run and judged.", "DESIGN.md §5 C07"),
+                "run and judged.", "DESIGN.md §4 C07"),
     "C08": _sem("Histories of engine.ground/engine.query calls on one shared target formula and one prepared ClauseDB "
                 "(all orders of queries and evidence up to a cap, with interleaved throw-away queries), and fresh "
                 "single-query groundings, judged by Semantics.tla and compared with the default pipeline.",
-                "DESIGN.md §5 C08", technique="API-call histories replayed on the real engine + TLA+ Semantics oracle (TLC)"),
+                "DESIGN.md §4 C08", technique="API-call histories replayed on the real engine + TLA+ Semantics oracle (TLC)"),
 })
 
 CHECKS["C34"] = dict(
@@ -59,7 +59,7 @@ CHECKS["C34"] = dict(
          "naturals) - spec/Containers*.tla. The real classes are bound to the spec by trace validation: thousands of "
          "recorded call histories (bounded-exhaustive + random) are replayed by TLC against the abstract model "
          "(ContainersTrace.tla, REJECT = violation) and against the concrete model (drift only).",
-    design_ref="DESIGN.md §5 C34",
+    design_ref="DESIGN.md §4 C34",
     note="Bounds: OrderedSet 4 keys x 2 sets; UHeap 4 items x 4 keys x <=7 ops; BitVector block size 2 in the model "
          "(32 in the trace spec). Trusted: recording wrapper, JSON transport, TLC.",
     technique="TLA+ refinement model checking (TLC) + trace validation of recorded executions of the real classes",
@@ -69,7 +69,7 @@ CHECKS["C30"] = _sem("Programs with annotations inside, on and outside [0,1] (li
                      "annotations, AD sums 0.9/1.0/1.1+) where the offending atom is queried directly; validity is "
                      "decided by Semantics!ValidAnnotation in TLC; invalid => InvalidValue expected under both the "
                      "probability and log-probability semiring, valid (incl. boundary) => C01 numbers.",
-                     "DESIGN.md §5 C30")
+                     "DESIGN.md §4 C30")
 
 CHECKS["C11"] = dict(
     category="model_checking",
@@ -81,7 +81,7 @@ CHECKS["C11"] = dict(
          "random and scenario histories recorded from the real class are validated step by step against the model "
          "(JudgeBuilderTrace.tla) and judged by Layer A (JudgeBuilder.tla over AOG.tla). Only Layer A says VIOLATION; a "
          "model/code mismatch is drift and triggers the Layer-A judgement of the real data.",
-    design_ref="DESIGN.md §5 C11",
+    design_ref="DESIGN.md §4 C11",
     note="Trusted: TLC + AOG.tla well-founded valuation, the recording wrapper. Exhaustive part: 2 atoms + 2 (thorough: 3) "
          "further calls with <= 2 children; random histories <= 9 calls over 3 atoms; no cycles through negation; node names "
          "are not modelled; add_disjunct's own return value is not treated as a key.",
@@ -99,7 +99,7 @@ CHECKS["C09"] = dict(
          "assignments: DAG acyclic and every query/evidence node has the well-founded value of the cyclic source; the CNF "
          "has exactly one model extending each constraint-allowed atom assignment and it agrees with the DAG on every "
          "node; AD constraints appear as exactly-one clauses; weights unchanged.",
-    design_ref="DESIGN.md §5 C09", note=_TV_NOTE,
+    design_ref="DESIGN.md §4 C09", note=_TV_NOTE,
     technique="translation validation of every transformation instance by TLC against TLA+ definitions (AOG.tla, Circuit.tla)")
 CHECKS["C10"] = dict(
     category="translation_validation",
@@ -107,7 +107,7 @@ CHECKS["C10"] = dict(
          "judged by TLC: decomposable, deterministic (no assignment makes two OR children true), smooth, same models as "
          "the CNF over all 2^n assignments, labels point to the same literals (or FALSE only if the literal is false in "
          "every model), weights carried over.",
-    design_ref="DESIGN.md §5 C10", note=_TV_NOTE + " dsharp itself is outside the repository.",
+    design_ref="DESIGN.md §4 C10", note=_TV_NOTE + " dsharp itself is outside the repository.",
     technique="translation validation of every compiled circuit by TLC against TLA+ d-DNNF definitions (Circuit.tla)")
 
 _TERM_NOTE = ("Trusted: TLC + spec/TermAlgebra.tla (Robinson mgu with occurs check, variants, standard order), the term "
@@ -120,14 +120,14 @@ CHECKS["C14"] = dict(
          "X \\= Y, call against a fact head, call against a rule head - and TLC judges every outcome with TermAlgebra!Mgu: "
          "success iff unifiable, bindings a variant of the mgu, \\= the complement of =, an error only where some "
          "unification order needs an occurs-check violation.",
-    design_ref="DESIGN.md §5 C14", note=_TERM_NOTE,
+    design_ref="DESIGN.md §4 C14", note=_TERM_NOTE,
     technique="TLA+ reference unifier (TermAlgebra.tla) evaluated by TLC on recorded outcomes of the real engine")
 CHECKS["C15"] = dict(
     category="exploration",
     text="compare/3, @<, @=<, @>, @>=, ==, \\== on a full number grid (multi-digit, negative, float/int ties) and sampled "
          "pairs of ground terms and variable-vs-term pairs, and sort/2 on random lists, are judged by TLC against "
          "TermAlgebra!StdCmp / SortUnique.",
-    design_ref="DESIGN.md §5 C15", note=_TERM_NOTE + " Strings and the order among distinct variables are not judged.",
+    design_ref="DESIGN.md §4 C15", note=_TERM_NOTE + " Strings and the order among distinct variables are not judged.",
     technique="TLA+ standard-order definition (TermAlgebra.tla) evaluated by TLC on recorded outcomes of the real builtins")
 
 CHECKS["C18"] = dict(
@@ -136,7 +136,7 @@ CHECKS["C18"] = dict(
          "Constant(int|float|str), Var, Not with both spellings, list2term, Term.from_string; atoms vs quoted atoms, 1 vs '1' "
          "vs 1.0, nested compounds): the recorded ==/hash matrices and ProbLog's own unify_value verdicts are judged by TLC "
          "(JudgeTerms!JudgeEq): reflexive, symmetric, transitive, equal => equal hash, ground equal <=> unification-identical.",
-    design_ref="DESIGN.md §5 C18", note=_TERM_NOTE,
+    design_ref="DESIGN.md §4 C18", note=_TERM_NOTE,
     technique="TLA+ equivalence/hash-consistency laws evaluated by TLC on recorded equality and hash matrices")
 CHECKS["C16"] = dict(
     category="exploration",
@@ -145,7 +145,7 @@ CHECKS["C16"] = dict(
          "engine; TLC judges value and result type against Arith.tla (truncating //, floor div/mod, rem = mod as documented, "
          "round/integer half away from zero, float parts, shifts and bitwise ops, powers); division by zero must be a "
          "ProbLog error; no internal exception may escape.",
-    design_ref="DESIGN.md §5 C16",
+    design_ref="DESIGN.md §4 C16",
     note="Trusted: TLC + spec/Arith.tla (exact arithmetic in quarters), expression renderer. Transcendental functions and "
          "values off the quarter grid are not decided; '/', min, max, sign, **, ^ compared by value only (Yap/SWI differ on "
          "type); Prolog type errors (float operand of //, mod, bitwise ops) are not required to be errors. The term-inspection "
@@ -158,11 +158,11 @@ CHECKS["C25"] = dict(
          "re-evaluated by the real system; its answers are judged against the exact probabilities TLC computes for the "
          "ORIGINAL program (Semantics.tla) and compared with the direct run. The exported DIMACS is re-read and TLC checks "
          "it has exactly the models of the internal CNF (JudgeDimacs.tla).",
-    design_ref="DESIGN.md §5 C25", note=SEM_NOTE + " --compact ('may remove some predicates') is not part of the property.",
+    design_ref="DESIGN.md §4 C25", note=SEM_NOTE + " --compact ('may remove some predicates') is not part of the property.",
     technique="translation validation: exported artefacts re-evaluated and judged by TLC against the TLA+ semantics of the source")
 CHECKS["C26"] = _sem("Every query of a generated program becomes a deterministic wrapper rule calling subquery/2, and "
                      "subquery/3 with the program's evidence as evidence list; the bound probability of every answer is "
-                     "judged against the exact (conditional) probability computed by TLC.", "DESIGN.md §5 C26")
+                     "judged against the exact (conditional) probability computed by TLC.", "DESIGN.md §4 C26")
 
 CHECKS["C29"] = _sem("Layer B: ClauseDB.tla models the node table, offsets, head tables, redirects and the copy-on-extend of "
                      "clausedb.py over propositional predicates; TLC checks that every database shows exactly the clauses of "
@@ -173,7 +173,7 @@ CHECKS["C29"] = _sem("Layer B: ClauseDB.tla models the node table, offsets, head
                      "nested), additions of facts / rules / ADs (also as first statements of nested extensions), interleaved "
                      "queries on the extension and on its ancestors, every result judged by TLC (Semantics.tla) on the program "
                      "that database denotes, which implies equality with preparing the union from scratch.",
-                     "DESIGN.md §5 C29", category="model_checking",
+                     "DESIGN.md §4 C29", category="model_checking",
                      technique="TLC model checking of an implementation-shaped TLA+ model of ClauseDB, spec->code replay of all explored "
                                "histories, Layer-A judges (structure and distribution semantics) on recorded histories")
 
@@ -184,7 +184,7 @@ CHECKS["C13"] = dict(
          "against the SLD interpreter of spec/SLD.tla - answer set for top-level queries, order and duplicates for findall "
          "lists. (b) Probability-free recursive programs (tabling) are judged by Semantics.tla: reported with probability 1 "
          "iff in the least model.",
-    design_ref="DESIGN.md §5 C13", note=_TERM_NOTE + " " + SEM_NOTE,
+    design_ref="DESIGN.md §4 C13", note=_TERM_NOTE + " " + SEM_NOTE,
     technique="TLA+ SLD interpreter (SLD.tla) and least-model semantics (Semantics.tla) evaluated by TLC on recorded answers")
 
 CHECKS["C22"] = dict(
@@ -195,7 +195,7 @@ CHECKS["C22"] = dict(
          "made; per program the branch masses sum to 1, the accepted mass equals P(evidence) and the accepted mass where a "
          "query is true equals its conditional probability, the exact numbers coming from TLC (Semantics.tla). This decides "
          "the distribution claim exactly, without statistics.",
-    design_ref="DESIGN.md §5 C22", note=SEM_NOTE + " One iteration of tasks.sample.sample is mirrored; continuous "
+    design_ref="DESIGN.md §4 C22", note=SEM_NOTE + " One iteration of tasks.sample.sample is mirrored; continuous "
     "distributions and sample/value/previous builtins are not covered.",
     technique="exhaustive enumeration of the real sampler's coin branches (scripted randomness) judged by the TLA+ Semantics oracle (TLC)")
 
@@ -204,14 +204,14 @@ CHECKS["C33"] = dict(
     text="Indexed rule sets r(I, ...) with indices from 1..15 in shuffled file order and applicability conditions; the answers "
          "of cut/2 on the real library are judged by TLC against CutAnswers (JudgeSLD.tla over SLD.tla): the answers of the "
          "applicable rule with the smallest index in standard order, and that index.",
-    design_ref="DESIGN.md §5 C33", note=_TERM_NOTE, technique="TLA+ definition of the soft cut over the SLD interpreter, evaluated by TLC on recorded answers")
+    design_ref="DESIGN.md §4 C33", note=_TERM_NOTE, technique="TLA+ definition of the soft cut over the SLD interpreter, evaluated by TLC on recorded answers")
 CHECKS["C28"] = dict(
     category="exploration",
     text="PyPl.tla transcribes py2pl/pl2py; TLC checks on a bounded value universe that the encoding round-trips for every "
          "value without a tuple in the last position of a tuple, and finds the counterexample otherwise (design level). The "
          "real pl2py(py2pl(v)) and problog_export'ed functions returning v are executed on a bounded-exhaustive + random "
          "universe (ints, floats, strings with quotes, nested lists / tuples) and judged by TLC (JudgePyPl.tla).",
-    design_ref="DESIGN.md §5 C28", note="Trusted: TLC, the value (de)serialiser of the harness. Depth <= 3; floats on the quarter grid.",
+    design_ref="DESIGN.md §4 C28", note="Trusted: TLC, the value (de)serialiser of the harness. Depth <= 3; floats on the quarter grid.",
     technique="TLA+ model of the value encoding checked by TLC + recorded round trips of the real functions judged by TLC")
 
 CHECKS["C12"] = dict(
@@ -221,7 +221,7 @@ CHECKS["C12"] = dict(
          "on all pairs of a rational grid plus near-boundary values is executed on the real SemiringProbability, "
          "SemiringLogProbability (through log/exp) and SemiringSymbolic (expression evaluated) and compared with TLC's exact "
          "result; base-class defaults is_one(one()), is_zero(zero()), normalize(a, one()) = a are checked on a minimal subclass.",
-    design_ref="DESIGN.md §5 C12", note="Trusted: TLC exact rational arithmetic (32-bit), float comparison 1e-9 (1e-8 for log). Float "
+    design_ref="DESIGN.md §4 C12", note="Trusted: TLC exact rational arithmetic (32-bit), float comparison 1e-9 (1e-8 for log). Float "
     "accuracy off the grid (log1p/exp) is not decided.",
     technique="TLA+ exact semiring model (laws checked by TLC) used as pointwise oracle for the real semirings")
 
@@ -231,7 +231,7 @@ CHECKS["C32"] = dict(
          "included), plus pairs of calls with the same identifier (must make the same choice) and different identifiers "
          "(independent): the probability of every (Value, Rest) answer reported by the real library is compared with the "
          "documented distribution computed exactly by TLC (SelectA.tla).",
-    design_ref="DESIGN.md §5 C32", note="Trusted: TLC integer arithmetic, answer-name rendering.",
+    design_ref="DESIGN.md §4 C32", note="Trusted: TLC integer arithmetic, answer-name rendering.",
     technique="TLA+ definition of the documented distribution evaluated by TLC, compared with the real library's answers")
 
 CHECKS["C19"] = dict(
@@ -241,7 +241,7 @@ CHECKS["C19"] = dict(
          "program through the SLD interpreter (SLD.tla) and sums exact world weights per ordered result list; the real "
          "system's list probabilities are compared with it (strictly; deviations that keep the distribution over solution "
          "multisets / sets are classified as the known tabling deviations).",
-    design_ref="DESIGN.md §5 C19", note=_TERM_NOTE, technique="TLA+ per-world SLD semantics with exact weights evaluated by TLC on recorded answers")
+    design_ref="DESIGN.md §4 C19", note=_TERM_NOTE, technique="TLA+ per-world SLD semantics with exact weights evaluated by TLC on recorded answers")
 
 CHECKS["C20"] = dict(
     category="exploration",
@@ -250,7 +250,7 @@ CHECKS["C20"] = dict(
          "P(evidence), the weight of the most probable evidence-satisfying world, the best such world consistent with the "
          "returned assignment and that assignment's marginal; verdict clauses: unsatisfiable reported iff P(evidence) = 0, the "
          "assignment is extendable to a most probable world, the reported probability is that world's or the assignment's.",
-    design_ref="DESIGN.md §5 C20", note=SEM_NOTE + " MaxSAT quantisation: worlds within 0.1% of the optimum accepted.",
+    design_ref="DESIGN.md §4 C20", note=SEM_NOTE + " MaxSAT quantisation: worlds within 0.1% of the optimum accepted.",
     technique="TLA+ possible-world semantics (max over worlds) evaluated by TLC on recorded MPE answers")
 
 CHECKS["C21"] = dict(
@@ -261,7 +261,7 @@ CHECKS["C21"] = dict(
          "state and number of evaluations as the transcription (drift). Generated decision-theoretic programs: JudgeDT.tla "
          "computes the exact expected utility of every strategy from Semantics.tla; exhaustive search must return a maximiser "
          "with its EU as score, local search a strategy whose single flips do not improve it.",
-    design_ref="DESIGN.md §5 C21", note=SEM_NOTE + " MAP (tasks/map.py) is not decided. LocalSearch bounds: N<=3 decisions, scores 0..3.",
+    design_ref="DESIGN.md §4 C21", note=SEM_NOTE + " MAP (tasks/map.py) is not decided. LocalSearch bounds: N<=3 decisions, scores 0..3.",
     technique="TLA+ model of the local search checked exhaustively by TLC + replay of the real search on scripted scores + TLA+ EU oracle")
 
 CHECKS["C31"] = dict(
@@ -270,7 +270,7 @@ CHECKS["C31"] = dict(
          "by the tool's own to_factor) is recorded; JudgeBN.tla checks that every CPT row is a distribution, that the network is "
          "well formed and acyclic, multiplies the CPTs out exactly and compares the marginal of every exported query variable "
          "with the exact probability from Semantics.tla.",
-    design_ref="DESIGN.md §5 C31", note=SEM_NOTE + " CPT entries must be multiples of 0.1; <= 8 non-deterministic CPTs.",
+    design_ref="DESIGN.md §4 C31", note=SEM_NOTE + " CPT entries must be multiples of 0.1; <= 8 non-deterministic CPTs.",
     technique="translation validation of the exported network by TLC against the TLA+ distribution semantics")
 
 CHECKS["C27"] = dict(
@@ -281,7 +281,7 @@ CHECKS["C27"] = dict(
          "duplicate, swap, insert, replace) and parsed and run; targeted user errors (undefined predicates, non-ground "
          "probabilistic clauses, invalid probabilities). Verdict: result or ProbLogError subclass; any other exception class is a "
          "violation identified by exception class and raise site.",
-    design_ref="DESIGN.md §5 C27", note="Exploration over a structured, bounded input set (not all strings). The spec contributes the "
+    design_ref="DESIGN.md §4 C27", note="Exploration over a structured, bounded input set (not all strings). The spec contributes the "
     "shape classes; the verdict (exception class is a ProbLogError) is evaluated by the harness.",
     technique="spec-guided generation (term shape classes of the TLA+ term algebra) with an exception-class oracle")
 
@@ -292,7 +292,7 @@ CHECKS["C17"] = dict(
          "(TermAlgebra!Variant via JudgeTerms) decides (a) parsed term = AST, (b) re-parsed term = parsed term. Totality: "
          "token-level mutations (delete, duplicate, swap, insert, replace, truncate) of generated programs and of printed terms "
          "must parse or raise a ProbLogError subclass.",
-    design_ref="DESIGN.md §5 C17", note=_TERM_NOTE + " Totality over all strings is approximated by structured token mutations.",
+    design_ref="DESIGN.md §4 C17", note=_TERM_NOTE + " Totality over all strings is approximated by structured token mutations.",
     technique="TLA+ term equality up to renaming (TermAlgebra.tla) evaluated by TLC on recorded parse/print/parse round trips")
 
 NOT_YET = "check not built yet in this round (planned in DESIGN.md §5); not claimed"
@@ -305,7 +305,7 @@ CHECKS["C23"] = dict(
          "probability computed by TLC from Semantics.tla: lower <= P <= upper, a single value equals P, complete runs are "
          "tight. With explain=[] the proof blocks are read back: per query the proof probabilities sum to P, and the block "
          "is printed under the query's own name.",
-    design_ref="DESIGN.md §5 C23", note=SEM_NOTE + " The search schedule inside Border.update (which proof MaxSAT returns "
+    design_ref="DESIGN.md §4 C23", note=SEM_NOTE + " The search schedule inside Border.update (which proof MaxSAT returns "
     "next) is not modelled; its soundness is judged on the reported bounds.",
     technique="differential check of the k-best bounds / explanation sums against the TLA+ Semantics oracle (TLC)")
 
@@ -318,6 +318,6 @@ CHECKS["C24"] = dict(
          "parameters after every iteration) is judged by TLC (JudgeLFI.tla): no decrease, every parameter in [0,1], AD sums, "
          "complete-data relative frequencies. For AD-free programs the first update is additionally compared with the exact "
          "EM update computed from Semantics.tla posteriors.",
-    design_ref="DESIGN.md §5 C24", note="Histories are passed to TLC in micro-units (tolerance 2e-6). Runs that abort with an "
+    design_ref="DESIGN.md §4 C24", note="Histories are passed to TLC in micro-units (tolerance 2e-6). Runs that abort with an "
     "error report no history and are counted, not judged. Non-ground tunable facts and t(_,X) parameters are not generated.",
     technique="recorded learning histories judged by a TLA+ judge (TLC) plus an exact first-step EM oracle from the TLA+ Semantics spec")
